@@ -44,7 +44,7 @@ FFS = {'from': 'aa_ff', 'to': 'cg_ff'}
 def _side_raw():
     ident = st.fixed_dictionaries({'res': st.integers(0, 5), 'fetch': st.sampled_from([True, True, False]),
                                    'style': st.sampled_from(['short', 'short', 'long']), 'bare': st.booleans(),
-                                   'attrs': st.sampled_from(ID_ATTRS)})
+                                   'join': st.booleans(), 'attrs': st.sampled_from(ID_ATTRS)})
     node = st.fixed_dictionaries({'id': st.integers(0, 5), 'name': st.integers(0, 3), 'attrs': st.sampled_from(NODE_ATTRS)})
     edge = st.fixed_dictionaries({'a': st.integers(0, 40), 'b': st.integers(0, 40), 'attrs': st.sampled_from(EDGE_ATTRS)})
     return st.fixed_dictionaries({'ids': st.lists(ident, min_size=1, max_size=3), 'nodes': st.lists(node, max_size=3),
@@ -145,6 +145,22 @@ def assemble(raw):
                         if i['style'] == 'short':
                             i['ident'] = '%s#%d' % (i['resname'], nfetched)
                             i['bare'] = False
+            # several shorthand identifiers on one line: a bare name continues the numbering of the identifier before it on
+            # that line ("!LIG#3 !TAIL" makes TAIL residue 4).  Only blocks that are not fetched are free in their number.
+            raw_join = {}
+            for k, rid in enumerate(rs['ids']):
+                resname = names[rid['res'] % len(names)]
+                raw_join.setdefault(resname, rid.get('join', False))
+            for k in range(1, len(ids)):
+                cur, prev = ids[k], ids[k - 1]
+                # both not fetched: their numbers (10 + position) are consecutive already and collide with no fetched block
+                if cur['style'] == 'short' and prev['style'] == 'short' and not cur['fetch'] and not prev['fetch'] \
+                        and cur['resid'] == prev['resid'] + 1 and raw_join.get(cur['resname']) \
+                        and cur['resname'] not in [i['ident'] for i in ids]:
+                    cur['resid'] = prev['resid'] + 1
+                    cur['ident'] = cur['resname']
+                    cur['bare'] = True
+                    cur['join'] = True
             nodes = []
             for rn in rs['nodes']:
                 idx = rn['id'] % len(ids)
@@ -353,9 +369,17 @@ def serialise(case):
             elif sec.endswith('blocks'):
                 direction = payload['dir']
                 ident = m[direction]['ids'][payload['id']]
+                if ident.get('join'):
+                    continue    # already written on the line of the identifier before it
                 prefix = '' if ident['fetch'] else '!'
                 if ident['style'] == 'short':
-                    data([prefix + ident['ident']], role='block-short', **info)
+                    tokens = [prefix + ident['ident']]
+                    follow = payload['id'] + 1
+                    while follow < len(m[direction]['ids']) and m[direction]['ids'][follow].get('join'):
+                        tokens.append('!' + m[direction]['ids'][follow]['ident'])
+                        known[direction].append(m[direction]['ids'][follow]['ident'])
+                        follow += 1
+                    data(tokens, role='block-short', **info)
                 else:
                     attrs = {'resname': ident['resname'], 'resid': ident['resid']}
                     if lay.pick(2):
